@@ -11,6 +11,7 @@ package main
 //	RAPIDPROG     <name>                      = the printed translation                  model: print (canonical declaration of that name)
 //	@RAPIDPROGDEF <name> <text>               = ok     context line: the driver parses and keeps the TRANSLATED declaration
 //	RAPIDPROG     <name> eqb                  = same   model: rdecl_eqb <translated> <canonical>
+//	RAPIDPROG     <name> diff                 = none   model: the first node at which the two printed declarations differ
 //	@RSCHEMA / SCHEMA                                  the schemas and annotations, as engine "rapid" writes them
 //	RAPIDPROGRUN  <schema> <message> <options> <tape seed> = ok
 //	              model: the interpreter on the TRANSLATED program and on the canonical one against RapidGen.gen and rapid_in_range
@@ -981,6 +982,7 @@ func engineRapidProg(c config, o *out) {
 		}
 		o.kase("@RAPIDPROGDEF", []string{d.name, d.sx}, "ok")
 		o.kase("RAPIDPROG", []string{d.name, "eqb"}, "same")
+		o.kase("RAPIDPROG", []string{d.name, "diff"}, "none")
 		o.count("translated_" + d.kind)
 		o.nontrivial("decl/" + d.sx)
 		for _, form := range []string{"(:=", "(=", "(var", "(expr", "(if", "(switch", "(for", "(range", "(return", "(continue)", "(return-custom",
